@@ -50,13 +50,14 @@ def check(ctx, replay=None):
     vlib.write_ndjson(cf, cases)
     d = ctx.path("listings", "x")
     d = os.path.dirname(d)
-    rc, out, err = ctx.run([os.path.join(bindir, "disasmreplay"), "-in", cf, "-dir", d, "-seed", str(ctx.seed)], timeout=3000)
+    rc, out, err = ctx.run([os.path.join(bindir, "disasmreplay"), "-in", cf, "-dir", d, "-seed", str(ctx.seed), "-huge", "3" if th else "1"], timeout=3000)
     if rc != 0:
         raise vlib.Machinery("disasmreplay failed: " + (out + err)[-1500:])
     s = json.loads(out.strip().splitlines()[-1])
     ctx.cov["evaluations"] = s["runs"]
     ctx.cov["listings_of_150_to_400_functions"] = s.get("listings_of_150_to_400_functions")
     ctx.cov["listings_with_functions_of_100_to_5000_lines"] = s.get("listings_with_functions_of_100_to_5000_lines")
+    ctx.cov["listings_beyond_a_power_of_two_in_size"] = s.get("listings_beyond_a_power_of_two_in_size")
     ctx.cov["distinct_nontrivial"] = s["distinct_nontrivial"]
     ctx.cov["traces_validated_against_impl"] = s["cases"]
     ctx.cov["cases_with_model_drift"] = s["drift"]
